@@ -25,6 +25,7 @@ CONV = "::verif_support::ext::Conv"
 VMAP = "::verif_support::ext::VMap"
 BTREE = "::std::collections::BTreeMap"
 CONV_SCHEMA = {"type": "string", "format": "x-conv"}
+CI_SCHEMA = {"type": "integer", "format": "x-int"}
 TARGETS = {
     "struct": {"type": "object", "properties": {"marker_d": INT}, "required": ["marker_d"]},
     "enum": {"type": "string", "enum": ["da", "db"]},
@@ -71,6 +72,12 @@ def document(kind):
                     "mmap": {"type": "object", "additionalProperties": {"type": "object", "additionalProperties": STR}},
                     "omap": {"type": ["object", "null"], "additionalProperties": INT},
                     "cm": {"type": "object", "additionalProperties": dict(CONV_SCHEMA)},
+                    # near-misses of the conversion schemas: they differ from them in exactly one validation keyword and must NOT be converted
+                    "cn_max": dict(CONV_SCHEMA, maxLength=5), "cn_pat": dict(CONV_SCHEMA, pattern="^[a-z]+$"), "cn_fmt": {"type": "string", "format": "x-conv2"},
+                    "cn_plain": {"type": "string"}, "cn_enum": dict(CONV_SCHEMA, enum=["a", "b"]),
+                    "ci": dict(CI_SCHEMA), "ci_min": dict(CI_SCHEMA, minimum=1), "ci_max": dict(CI_SCHEMA, maximum=255), "ci_range": dict(CI_SCHEMA, minimum=0, maximum=255),
+                    "ci_mult": dict(CI_SCHEMA, multipleOf=2), "ci_fmt": {"type": "integer", "format": "x-int2"}, "ci_plain": {"type": "integer"},
+                    "ci_vec": {"type": "array", "items": dict(CI_SCHEMA, description="annotated")},
                     "co": {"oneOf": [dict(CONV_SCHEMA), {"type": "null"}]}}, ["a"]),
         "IndEnum": {"oneOf": [obj({"A": INT}, ["A"]), {"type": "string", "enum": ["B"]},
                               obj({"M": {"type": "object", "additionalProperties": INT}}, ["M"]), obj({"C": dict(CONV_SCHEMA)}, ["C"]),
@@ -89,7 +96,7 @@ def document(kind):
     return {"definitions": defs}
 
 
-FEATURES = ["replace", "convert", "convert_annot", "patch", "patch_inline", "derive", "map_btree", "map_vmap", "builder"]
+FEATURES = ["replace", "convert", "convert_annot", "convert_int", "patch", "patch_inline", "derive", "map_btree", "map_vmap", "builder"]
 
 
 def settings_for(feats):
@@ -100,6 +107,8 @@ def settings_for(feats):
         st["convert"] = [{"schema": CONV_SCHEMA, "type": CONV, "impls": ["FromStr", "Display"]}]
     if "convert_annot" in feats:
         st["convert"] = [{"schema": dict(CONV_SCHEMA, description="given with annotations", title="ConvTitle"), "type": CONV, "impls": ["FromStr", "Display"]}]
+    if "convert_int" in feats:
+        st["convert"] = st.get("convert", []) + [{"schema": dict(CI_SCHEMA), "type": REPL, "impls": []}]
     if "patch" in feats:
         st["patch"] = {"Tgt": {"rename": "Renamed", "derives": ["PartialEq"]}}
     if "patch_inline" in feats:
@@ -186,6 +195,8 @@ def execute(cases_, tier, seed):
         for t in PROBED:
             if "replace" in c["features"] and t in ("Tgt", "UMember", "UExt", "UMap"):
                 continue   # affected by the replacement
+            if "convert_int" in c["features"] and t == "Ind":
+                continue   # affected: the integer conversion target (Repl) accepts any JSON value at the converted members
             tn = t
             placed.append({"id": "%s/%s" % (c["id"], t), "doc": c["doc"], "target": tn, "settings": c["settings"]})
             owner.append((c, t))
@@ -228,6 +239,13 @@ def execute(cases_, tier, seed):
                 probs.append("UAllOf lost the merged member marker_d (allOf members are merged structurally)")
         conv_sites = {("Ind", "cs"): "::std::option::Option<{C}>", ("Ind", "cv"): "::std::vec::Vec<{C}>", ("Ind", "cm"): "{M}<::std::string::String,{C}>",
                       ("Ind", "co"): "::std::option::Option<{C}>", ("IndEnum", "C.0"): "{C}", ("IndEnum", "S.sc"): "{C}"}
+        int_sites = {("Ind", "ci"): "::std::option::Option<{R}>", ("Ind", "ci_vec"): "::std::vec::Vec<{R}>"}
+        if "convert_int" in F:
+            got = {(i, m): t for (i, m, t) in fts}
+            for (i, m), tmpl in int_sites.items():
+                want = tmpl.replace("{R}", REPL)
+                if got.get((i, m)) != want:
+                    probs.append("%s.%s: type %s, expected %s (subschema equal to the integer conversion schema modulo annotations)" % (i, m, got.get((i, m)), want))
         if F & {"convert", "convert_annot"}:
             got = {(i, m): t for (i, m, t) in fts}
             for (i, m), tmpl in conv_sites.items():
@@ -251,6 +269,8 @@ def execute(cases_, tier, seed):
                 return bt.replace("::std::collections::HashMap", mp)
             for (i, m, t) in fts:
                 if (i, m) in conv_sites and F & {"convert", "convert_annot"}:
+                    continue
+                if (i, m) in int_sites and "convert_int" in F:
                     continue
                 bt = base_fts.get((back.get(i, i), m))
                 if bt is None:
